@@ -100,6 +100,15 @@ def run(chk):
                         dF = np.abs(h["F_hist"][-1] - h1["F_hist"][-1]).max() / np.abs(h["F_hist"][-1]).max()
                         if dF > 2 * (5e-3 + 1e-3 * (sc["nupd"] + 2 * h["strain"])):
                             mon.append((sc, sc["nupd"] - 1, f"split interval and whole interval give different F: {dF:.3e}", F0))
+            # block-boundary grain counts (trace validation of the rate kernel at those sizes; F as above)
+            for sc in MT.block_scenarios(np.random.default_rng([chk.seed, 0xB10C]), chk.tier, regimes=(4, 6, 0),
+                                         sizes=(64, 128, 129, 1024) if chk.tier == "quick" else None):
+                F0 = random_F0(rng)
+                h = c01.run_history(rec, sc, F0=F0)
+                c01.validate_traces(chk, h, bad)
+                fails = [f for f in h["fails"]]
+                worst = max(worst, check_history(h, F0, fails))
+                mon += [(sc, k, m, F0) for k, m in fails]
             # bulk update returns the single-phase F
             for _ in range(3 if chk.tier == "quick" else 30):
                 sc = MT.scenario(rng, regime=4, pair=(0, 0), n=6, nupd=1)
